@@ -508,8 +508,20 @@ class Printer:
                 s = be + '.' + name
         if self.field_is_ref(n): s = '(*' + s + ')'
         return s
-    def method_cname(self, cls, name, nargs):
+    def method_cname(self, cls, name, nargs, args=None):
         base = short(cls) + '_' + sanitize(name)
+        # `//@rename Cls_method(ArgType,..) => cname`: an overload told apart by the C types of its arguments (e.g. operator= from a view)
+        if args is not None and any(isinstance(k, str) and k.startswith(base + '(') for k in self.rename):
+            tys = []
+            for a in args:
+                # the type of the argument expression itself, not of the base class / const view it is converted to for the parameter
+                while a.get('inner') and (a.get('kind') in TRANSPARENT or
+                                          (a.get('kind') == 'ImplicitCastExpr' and a.get('castKind') in ('DerivedToBase', 'UncheckedDerivedToBase', 'NoOp'))):
+                    a = a['inner'][0]
+                try: c, k = self.ctype(a['type']); tys.append(short(c))
+                except ExtractionBreak: tys.append('?')
+            key = base + '(' + ','.join(tys) + ')'
+            if key in self.rename: return self.rename[key]
         for key in ((cls, name, nargs), (short(cls), name, nargs), base + '/%d' % nargs, base):
             if key in self.rename: return self.rename[key]
         return base
@@ -547,7 +559,7 @@ class Printer:
         while args and args[-1].get('kind') == 'CXXDefaultArgExpr': args = args[:-1]
         cls = self.owner_cls(callee.get('referencedMemberDecl'), obj)
         ptypes = self.method_ptypes(callee.get('referencedMemberDecl'))
-        cname = self.method_cname(cls, name, len(args))
+        cname = self.method_cname(cls, name, len(args), args)
         oe = self.expr(obj)
         optr = oe if callee.get('isArrow') else simp_addr(oe)
         al = self.args(args, ptypes)
@@ -567,7 +579,7 @@ class Printer:
             post = False
             if opname in ('operator++', 'operator--') and len(ops) == 2:
                 post = True; rest = []
-            cname = self.method_cname(cls, oname, len(rest))
+            cname = self.method_cname(cls, oname, len(rest), rest)
             if post: cname = cname.replace('_inc', '_postinc').replace('_dec', '_postdec')
             al = self.args(rest, ptypes if not post else None)
             self.calls.append(cname)
